@@ -243,6 +243,34 @@ def x_vcheck_deriv(m, f, df, var, tag, k, fd_estimate):
     _ob(m, 'eq', df, D, tag, k)
 
 
+def _wrt(m, v):
+    s_, c_ = sym('s_0_0', 'R'), sym('c_0_0', 'R')
+    return {'r_0_0': Fraction(1)} if v == 'r' else {'theta_0_0': Fraction(1), 's_0_0': c_, 'c_0_0': mk('neg', s_)}
+
+
+def x_vdiff(m, f, var):
+    """formal partial derivative of a term (engine only; the native runtime returns 0 and never uses it)"""
+    if m.mode == 'float':
+        return 0.0
+    from .terms import diff
+    return diff(f, _wrt(m, m.cstr(var)))
+
+
+def x_vcheck_eq_fd(m, a, b, tag, k, fd):
+    """engine: a = b (a built with vdiff); native: b against the finite-difference value fd computed by the harness"""
+    if m.mode == 'float':
+        _ob(m, 'eq', b, fd, tag, k)
+        return
+    for t in reachable([x for x in (a, b) if isinstance(x, Term)]):
+        if t.op == 'uf' and t.args[0] in ('sin', 'cos'):
+            key = ('trig', t.args[1].id if isinstance(t.args[1], Term) else t.args[1])
+            if key not in m.known_sqrt:
+                m.known_sqrt.add(key)
+                sa, ca = Term('uf', ('sin', t.args[1])), Term('uf', ('cos', t.args[1]))
+                m.assume(mk_cmp('eq', mk('add', mk('mul', sa, sa), mk('mul', ca, ca)), Fraction(1)))
+    _ob(m, 'eq', a, b, tag, k)
+
+
 def x_vreach(m, tag):
     m.reached.add(m.cstr(tag))
 
@@ -686,7 +714,7 @@ def base_ext():
         '@vassume_le': x_vassume_le, '@vassume_lt': x_vassume_lt,
         '@vcheck_eq': x_vcheck_eq, '@vcheck_le': x_vcheck_le, '@vcheck_lt': x_vcheck_lt, '@vcheck_bits_eq': x_vcheck_bits_eq,
         '@vcheck_true': x_vcheck_true, '@vcheck_indep': x_vcheck_indep, '@vcheck_sat': x_vcheck_sat,
-        '@vreach': x_vreach, '@vrace_begin': x_noop, '@vcheck_deriv': x_vcheck_deriv, '@vout': x_vout, '@vout_int': x_vout_int, '@vis_symbolic': x_vis_symbolic, '@vset_threads': x_vset_threads,
+        '@vreach': x_vreach, '@vrace_begin': x_noop, '@vcheck_deriv': x_vcheck_deriv, '@vdiff': x_vdiff, '@vcheck_eq_fd': x_vcheck_eq_fd, '@vout': x_vout, '@vout_int': x_vout_int, '@vis_symbolic': x_vis_symbolic, '@vset_threads': x_vset_threads,
         '@llvm.fabs.f64': x_fabs, '@fabs': x_fabs, '@llvm.fmuladd.f64': x_fmuladd,
         '@llvm.floor.f64': x_floor, '@floor': x_floor, '@llvm.ceil.f64': x_ceil, '@ceil': x_ceil,
         '@llvm.minnum.f64': x_minmax('min'), '@llvm.maxnum.f64': x_minmax('max'), '@fmin': x_minmax('min'), '@fmax': x_minmax('max'),
